@@ -152,6 +152,37 @@ Section MapSt.
     end.
 End MapSt.
 
+(* zip a list of values with a list of per-position parameters *)
+Section ZipSt.
+  Context {A B C: Type} (f: A -> B -> nat -> C * nat).
+  Fixpoint zip_st (es: list B) (xs: list A) (m: nat) {struct xs} : list C * nat :=
+    match es, xs with
+    | e' :: es', x :: xs' =>
+        let (y, m1) := f x e' m in
+        let (ys, m2) := zip_st es' xs' m1 in (y :: ys, m2)
+    | _, _ => ([], m)
+    end.
+End ZipSt.
+
+Section ZipApp.
+  Context {A B C: Type} (g: A -> B -> list C).
+  Fixpoint zip_app (ts: list B) (xs: list A) {struct xs} : list C :=
+    match ts, xs with
+    | t' :: ts', x :: xs' => g x t' ++ zip_app ts' xs'
+    | _, _ => []
+    end.
+End ZipApp.
+
+Section ZipAll.
+  Context {A B: Type} (p: A -> B -> bool).
+  Fixpoint zip_all (ts: list B) (xs: list A) {struct xs} : bool :=
+    match ts, xs with
+    | [], [] => true
+    | t' :: ts', x :: xs' => p x t' && zip_all ts' xs'
+    | _, _ => false
+    end.
+End ZipAll.
+
 (* the packed form of a dataclass: a new dict {name: packed field}; key strings are
    immutable atoms (their text is irrelevant here) *)
 Definition as_items (ys: list lv) : list (lv * lv) := map (fun y => (VAtom 0, y)) ys.
@@ -192,14 +223,7 @@ Section RunPack.
       | ITup es =>
           match v with
           | VSeq _ _ xs =>
-              let (ys, n') :=
-                (fix go (es: list ir) (xs: list lv) (m: nat) {struct xs} : list lv * nat :=
-                   match es, xs with
-                   | e' :: es', x :: xs' =>
-                       let (y, m1) := run_pack x call e' m in
-                       let (ys, m2) := go es' xs' m1 in (y :: ys, m2)
-                   | _, _ => ([], m)
-                   end) es xs (S n) in
+              let (ys, n') := zip_st (fun x e' => run_pack x call e') es xs (S n) in
               (VSeq KList n ys, n')
           | _ => (v, n) end
       | ICall _ fw =>
@@ -209,13 +233,7 @@ Section RunPack.
               let k := E.(e_ct) c' in
               let N' := effN E call' k in
               let (ys, n') :=
-                (fix go (ts: list ty) (fs: list lv) (m: nat) {struct fs} : list lv * nat :=
-                   match ts, fs with
-                   | t :: ts', x :: fs' =>
-                       let (y, m1) := run_pack x call' (cp E N' k.(c_sup) t) m in
-                       let (ys, m2) := go ts' fs' m1 in (y :: ys, m2)
-                   | _, _ => ([], m)
-                   end) k.(c_fields) fs (S n) in
+                zip_st (fun x t => run_pack x call' (cp E N' k.(c_sup) t)) k.(c_fields) fs (S n) in
               (VMap KDict n (as_items ys), n')
           | _ => (v, n) end
       end.
@@ -237,12 +255,7 @@ Section Conf.
           match v with VSeq _ _ xs => forallb (fun x => conforms x t') xs | _ => false end
       | TTup ts =>
           match v with
-          | VSeq _ _ xs =>
-              (fix go (ts: list ty) (xs: list lv) {struct xs} : bool :=
-                 match ts, xs with
-                 | [], [] => true
-                 | t' :: ts', x :: xs' => conforms x t' && go ts' xs'
-                 | _, _ => false end) ts xs
+          | VSeq _ _ xs => zip_all conforms ts xs
           | _ => false end
       | TMap _ kt vt =>
           match v with
@@ -251,12 +264,7 @@ Section Conf.
       | TDC c =>
           match v with
           | VObj c' _ fs =>
-              Nat.eqb c c' &&
-              (fix go (ts: list ty) (xs: list lv) {struct xs} : bool :=
-                 match ts, xs with
-                 | [], [] => true
-                 | t' :: ts', x :: xs' => conforms x t' && go ts' xs'
-                 | _, _ => false end) (E.(e_ct) c').(c_fields) fs
+              Nat.eqb c c' && zip_all conforms (E.(e_ct) c').(c_fields) fs
           | _ => false end
       end.
 End Conf.
@@ -346,11 +354,7 @@ Section ByRef.
           | _ => [] end
       | TTup ts =>
           match v with
-          | VSeq _ _ xs =>
-              (fix go (ts: list ty) (xs: list lv) {struct xs} : list lv :=
-                 match ts, xs with
-                 | t' :: ts', x :: xs' => byref x call N hsup t' ++ go ts' xs'
-                 | _, _ => [] end) ts xs
+          | VSeq _ _ xs => zip_app (fun x t' => byref x call N hsup t') ts xs
           | _ => [] end
       | TMap o kt vt =>
           match v with
@@ -365,10 +369,7 @@ Section ByRef.
               let call' := if hsup && (E.(e_ct) c).(c_sup) then call else None in
               let k := E.(e_ct) c' in
               let N' := effN E call' k in
-              (fix go (ts: list ty) (xs: list lv) {struct xs} : list lv :=
-                 match ts, xs with
-                 | t' :: ts', x :: xs' => byref x call' N' k.(c_sup) t' ++ go ts' xs'
-                 | _, _ => [] end) k.(c_fields) fs
+              zip_app (fun x t' => byref x call' N' k.(c_sup) t') k.(c_fields) fs
           | _ => [] end
       end.
 End ByRef.
@@ -443,28 +444,15 @@ Section RunUnpack.
       | UTup es =>
           match w with
           | VSeq _ _ xs =>
-              let (ys, n') :=
-                (fix go (es: list uir) (xs: list lv) (m: nat) {struct xs} : list lv * nat :=
-                   match es, xs with
-                   | e' :: es', x :: xs' =>
-                       let (y, m1) := run_unpack x e' m in
-                       let (ys, m2) := go es' xs' m1 in (y :: ys, m2)
-                   | _, _ => ([], m)
-                   end) es xs (S n) in
+              let (ys, n') := zip_st (fun x e' => run_unpack x e') es xs (S n) in
               (VSeq KTuple n ys, n')
           | _ => (w, n) end
       | UCall c =>
           match w with
           | VMap _ _ kvs =>
               let (ys, n') :=
-                (fix go (ts: list ty) (kvs: list (lv * lv)) (m: nat) {struct kvs} : list lv * nat :=
-                   match ts, kvs with
-                   | t :: ts', kv :: kvs' =>
-                       match kv with (_, x) =>
-                         let (y, m1) := run_unpack x (cu t) m in
-                         let (ys, m2) := go ts' kvs' m1 in (y :: ys, m2) end
-                   | _, _ => ([], m)
-                   end) (E.(e_ct) c).(c_fields) kvs (S n) in
+                zip_st (fun kv t => match kv with (_, x) => run_unpack x (cu t) end)
+                       (E.(e_ct) c).(c_fields) kvs (S n) in
               (VObj c n ys, n')
           | _ => (w, n) end
       end.
@@ -480,12 +468,7 @@ Section RunUnpack.
           match w with VSeq _ _ xs => forallb (fun x => wconforms x t') xs | _ => false end
       | TTup ts =>
           match w with
-          | VSeq _ _ xs =>
-              (fix go (ts: list ty) (xs: list lv) {struct xs} : bool :=
-                 match ts, xs with
-                 | [], [] => true
-                 | t' :: ts', x :: xs' => wconforms x t' && go ts' xs'
-                 | _, _ => false end) ts xs
+          | VSeq _ _ xs => zip_all wconforms ts xs
           | _ => false end
       | TMap _ kt vt =>
           match w with
@@ -494,11 +477,7 @@ Section RunUnpack.
       | TDC c =>
           match w with
           | VMap _ _ kvs =>
-              (fix go (ts: list ty) (kvs: list (lv * lv)) {struct kvs} : bool :=
-                 match ts, kvs with
-                 | [], [] => true
-                 | t' :: ts', kv :: kvs' => match kv with (_, x) => wconforms x t' && go ts' kvs' end
-                 | _, _ => false end) (E.(e_ct) c).(c_fields) kvs
+              zip_all (fun kv t' => match kv with (_, x) => wconforms x t' end) (E.(e_ct) c).(c_fields) kvs
           | _ => false end
       end.
 
@@ -513,11 +492,7 @@ Section RunUnpack.
           match w with VSeq _ _ xs => flat_map (fun x => anyref x t') xs | _ => [] end
       | TTup ts =>
           match w with
-          | VSeq _ _ xs =>
-              (fix go (ts: list ty) (xs: list lv) {struct xs} : list lv :=
-                 match ts, xs with
-                 | t' :: ts', x :: xs' => anyref x t' ++ go ts' xs'
-                 | _, _ => [] end) ts xs
+          | VSeq _ _ xs => zip_app anyref ts xs
           | _ => [] end
       | TMap _ kt vt =>
           match w with
@@ -526,10 +501,7 @@ Section RunUnpack.
       | TDC c =>
           match w with
           | VMap _ _ kvs =>
-              (fix go (ts: list ty) (kvs: list (lv * lv)) {struct kvs} : list lv :=
-                 match ts, kvs with
-                 | t' :: ts', kv :: kvs' => match kv with (_, x) => anyref x t' ++ go ts' kvs' end
-                 | _, _ => [] end) (E.(e_ct) c).(c_fields) kvs
+              zip_app (fun kv t' => match kv with (_, x) => anyref x t' end) (E.(e_ct) c).(c_fields) kvs
           | _ => [] end
       end.
 End RunUnpack.
